@@ -24,6 +24,9 @@ func verifC07Ident(name string, max int) string {
 			symAssume((c >= 'a' && c <= 'z') || c == '_' || (c >= '0' && c <= '9'))
 		}
 	}
+	for _, kw := range []string{"if", "go", "for", "var", "map"} {
+		symAssume(s != kw) // Go keywords are not identifiers
+	}
 	return s
 }
 
